@@ -111,11 +111,22 @@ func runC43(c *Ctx) {
 			"Headers": {"no", "forwarded headers"}, "Stats": {"no", "statistics mode"}, "SplitInterval": {"key", ""},
 		},
 	}
-	atomFor := map[string][]string{ // field -> substrings, one of which must occur in an atom name
-		"Start": {"currentInterval", "GetStart()"}, "SplitInterval": {"splitInterval", "GetSplitInterval()"}, "Step": {"step"}, "Query": {".Query"}, "PartialResponse": {".PartialResponse"},
-		"MaxSourceResolution": {"i"}, "ReplicaLabels": {"replicaLabel", "ReplicaLabels"}, "ShardInfo": {"ShardInfo", "shardInfoKey", "generateShardInfoKey"}, "LookbackDelta": {".LookbackDelta"},
+	atomFor := map[string][]string{ // field -> what must occur in the provenance of some atom of the key (locals expanded to their definitions)
+		"Start": {"GetStart()", ".Start"}, "SplitInterval": {"GetSplitInterval()", ".SplitInterval"}, "Step": {".Step", "GetStep()"}, "Query": {".Query"}, "PartialResponse": {".PartialResponse"},
+		"MaxSourceResolution": {".MaxSourceResolution"}, "ReplicaLabels": {".ReplicaLabels"}, "ShardInfo": {".ShardInfo", "generateShardInfoKey("}, "LookbackDelta": {".LookbackDelta"},
 		"Analyze": {".Analyze"}, "Engine": {".Engine"}, "Label": {".Label"}, "Matchers": {".Matchers"}, "Dedup": {".Dedup"}, "StoreMatchers": {".StoreMatchers"},
 	}
+	var tenantParam types.Object
+	if ps := gen.Decl.Type.Params; ps != nil && len(ps.List) > 0 && len(ps.List[0].Names) > 0 {
+		tenantParam = gen.Info().Defs[ps.List[0].Names[0]]
+	}
+	var rngCall *ast.CallExpr
+	ast.Inspect(gen.Body(), func(n ast.Node) bool {
+		if call, ok := n.(*ast.CallExpr); ok && rng.Obj != nil && calleeOf(gen.Info(), call) == rng.Obj {
+			rngCall = call
+		}
+		return true
+	})
 	kindOf := map[string]string{"ThanosQueryRangeRequest": "range", "ThanosLabelsRequest": "labels", "ThanosSeriesRequest": "series"}
 	for _, tn := range []string{"ThanosQueryRangeRequest", "ThanosLabelsRequest", "ThanosSeriesRequest"} {
 		kind := kindOf[tn]
@@ -125,10 +136,19 @@ func runC43(c *Ctx) {
 			continue
 		}
 		names := map[string]bool{}
-		atomNames(ts, names)
 		hasTenant := false
-		for n := range names {
-			if n == "userID" {
+		for _, a := range atomList(ts) {
+			// an atom that is a parameter of the range-key helper stands for the argument GenerateCacheKey passes
+			if id, ok := unparenOrNil(a.Src).(*ast.Ident); ok && a.Fn == rng {
+				for k, pn := range namesOf(rng).Params {
+					if pn == id.Name && rngCall != nil && k < len(rngCall.Args) && objOf(a.Info, id) != nil && isParamOf(rng, objOf(a.Info, id)) {
+						a = fT{K: fAtom, Raw: canon(rngCall.Args[k]), Src: rngCall.Args[k], Info: gen.Info(), Fn: gen}
+					}
+				}
+			}
+			names[strings.ReplaceAll(a.Provenance(), " ", "")] = true
+			// the tenant: the first parameter of GenerateCacheKey, directly or through a helper's parameter
+			if id, ok := unparenOrNil(a.Src).(*ast.Ident); ok && a.Info != nil && tenantParam != nil && objOf(a.Info, id) == tenantParam {
 				hasTenant = true
 			}
 		}
@@ -224,7 +244,9 @@ func runC43(c *Ctx) {
 			if prim != nil && len(prim.Args) == len(call.Args) {
 				ok = true
 				for i := range call.Args {
-					a, b := strings.ReplaceAll(exprString(call.Args[i]), " ", ""), strings.ReplaceAll(exprString(prim.Args[i]), " ", "")
+					// compared by provenance: what the argument is computed from, with the locals in between expanded
+				a := strings.ReplaceAll(fT{K: fAtom, Src: call.Args[i], Info: ainfo, Fn: alt, P: p}.Provenance(), " ", "")
+				b := strings.ReplaceAll(fT{K: fAtom, Src: prim.Args[i], Info: gen.Info(), Fn: gen, P: p}.Provenance(), " ", "")
 					if i == 2 {
 						continue // step
 					}
